@@ -228,6 +228,17 @@ def run(ctx):
     ctx.note_space("Raises under unary combinators x callables raising KeyboardInterrupt / SystemExit / "
                    "GeneratorExit / Exceptions / returning", n)
     # random trees
+    # one AfterPreprocessing instance over values that are == and hash alike but preprocess differently
+    import itertools as _it
+    n = 0
+    for pre, inner in (("tostr", ["Equals", "1"]), ("tostr", ["Equals", "True"]), ("tostr", ["Contains", "."]),
+                       ("neg", ["Equals", -1]), ("neg_partial", ["IsInstance", ["int"]])):
+        for order in _it.permutations([["int", 1], ["int", True], ["int", 1.0]]):
+            for annotate in (True, False):
+                if ctx.mine():
+                    n += 1
+                    ctx.execute("sequence", {"expr": ["AfterPreprocessing", pre, inner, annotate], "values": list(order)})
+    ctx.note_space("one AfterPreprocessing instance over the orders of 1, True, 1.0: 5 matchers x 6 orders x annotate", n)
     ctx.notes["random_cases"] = True
     for i in range(ctx.scale(80000, 3000000)):
         if ctx.out_of_time():
